@@ -2,7 +2,9 @@
 From Coq Require Import List Bool String.
 From TS Require Import Model.Str Model.Outcome Model.Unicode Model.Types Model.Parse Model.Reconcile Model.Lang.Decl
                        Model.Lang.TypeScript Model.Lang.Kotlin Model.Lang.Scala Model.Lang.Go Spec.C09Spec.
+From TS Require Import Model.Lang.Swift Model.Lang.Python.
 From TS Require Proofs.C09Common Proofs.C09Recon Proofs.C09Refs Proofs.C09_KotlinFile Proofs.C09Witness Proofs.C09Final.
+From TS Require Proofs.C09_TypeScript Proofs.C09_Scala Proofs.C09_Python Proofs.C09_Swift Proofs.C09_Go.
 Import ListNotations.
 
 (* the program the back ends receive in single-file mode is Proofs.C09Recon.c09_reconciled of the parsed one *)
@@ -31,9 +33,12 @@ Print Assumptions C09_reconciled_mentions.
 (* all six languages, the language-independent half: an observation in which every definition is
    declared under the table's name and every reference is a generic parameter of its owner, the
    reconciled name of a mentioned item, the sealed parent or the helper struct (c09_shape) satisfies
-   the judgement outside the recorded classes.  PARTIAL for TypeScript, Swift, Scala, Go, Python: that
-   their *_file_decls have this shape is proved for Kotlin only (C09_Kotlin); for the other five it is
-   validated by the correspondence check on every run, not yet proved. *)
+   the judgement outside the recorded classes.  That *_file_decls HAS this shape is proved for Kotlin,
+   TypeScript, Scala, Python and Swift in every configuration (C09_Kotlin .. C09_Swift below) and for Go
+   with an empty uppercase_acronyms list (C09_Go_partial).  PARTIAL (hence the name): for Go with a
+   non-empty acronym list the shape is validated by the correspondence check on every run, not proved.
+   A back end declares the <Enum><Variant>Inner entities only if c09_has_inner (all but TypeScript,
+   which inlines struct variants); the shape asks for the definitions of the declared entities only. *)
 Theorem C09_all_languages_partial :
   forall (L : lang) (pfx : str) (acrs : list str) (pd : parsed) (obs : c09_obs),
     dom_C09 L pfx pd = true -> known_C09 L pfx acrs pd = None ->
@@ -64,6 +69,119 @@ Theorem C09_no_rename_Kotlin :
       good_C09 Kotlin (kt_prefix cfg) pd (c09_observe Kotlin fd) = true.
 Proof. exact Proofs.C09Final.c09_no_rename_kotlin. Qed.
 Print Assumptions C09_no_rename_Kotlin.
+
+(* TypeScript (no prefix), every program, every type-mapping configuration: outside the recorded classes
+   every name the generated file spells in a type position (member types - those of inlined struct
+   variants included -, variant payloads, alias targets, const types, generic arguments) is a generic
+   parameter of the item it stands in or exactly the name a generated definition is declared under *)
+Theorem C09_TypeScript :
+  forall (uc : unicode) (cfg : ts_config) (acrs : list str) (pd : parsed),
+    dom_C09 TypeScript [] pd = true -> known_C09 TypeScript [] acrs pd = None ->
+    forall fd : file_decls, ts_file_decls uc cfg (Proofs.C09Recon.c09_reconciled pd) = Ok fd ->
+      good_C09 TypeScript [] pd (c09_observe TypeScript fd) = true.
+Proof. exact Proofs.C09_TypeScript.c09_typescript_all. Qed.
+Print Assumptions C09_TypeScript.
+
+Theorem C09_no_rename_TypeScript :
+  forall (uc : unicode) (cfg : ts_config) (pd : parsed),
+    dom_C09 TypeScript [] pd = true ->
+    (forall e, In e (c09_entities pd) -> c09_renamed_away (c9e_id e) = false) ->
+    forall fd : file_decls, ts_file_decls uc cfg (Proofs.C09Recon.c09_reconciled pd) = Ok fd ->
+      good_C09 TypeScript [] pd (c09_observe TypeScript fd) = true.
+Proof. exact Proofs.C09Final.c09_no_rename_typescript. Qed.
+Print Assumptions C09_no_rename_TypeScript.
+
+(* Scala (no prefix; no topsort; consts are never written), every program, package and type-mapping
+   configuration: outside the recorded classes every name spelled in a type position (case-class
+   parameter types, variant payloads, alias targets, the name after `extends`, the ...Inner helper class
+   and its type arguments) is a generic parameter of the item it stands in or exactly the name a
+   generated definition is declared under *)
+Theorem C09_Scala :
+  forall (uc : unicode) (cfg : sc_config) (acrs : list str) (pd : parsed),
+    dom_C09 Scala [] pd = true -> known_C09 Scala [] acrs pd = None ->
+    forall fd : file_decls, sc_file_decls uc cfg (Proofs.C09Recon.c09_reconciled pd) = Ok fd ->
+      good_C09 Scala [] pd (c09_observe Scala fd) = true.
+Proof. exact Proofs.C09_Scala.c09_scala_all. Qed.
+Print Assumptions C09_Scala.
+
+Theorem C09_no_rename_Scala :
+  forall (uc : unicode) (cfg : sc_config) (pd : parsed),
+    dom_C09 Scala [] pd = true ->
+    (forall e, In e (c09_entities pd) -> c09_renamed_away (c9e_id e) = false) ->
+    forall fd : file_decls, sc_file_decls uc cfg (Proofs.C09Recon.c09_reconciled pd) = Ok fd ->
+      good_C09 Scala [] pd (c09_observe Scala fd) = true.
+Proof. exact Proofs.C09Final.c09_no_rename_scala. Qed.
+Print Assumptions C09_no_rename_Scala.
+
+(* Python (no prefix), every program, every type-mapping configuration: outside the recorded classes every
+   name spelled in a type position (attribute types, variant content types, alias targets, const types,
+   the ...Inner helper class of a struct variant, generic arguments) is a generic parameter of the item it
+   stands in or exactly the name a generated definition is declared under *)
+Theorem C09_Python :
+  forall (uc : unicode) (cfg : py_config) (acrs : list str) (pd : parsed),
+    dom_C09 Python [] pd = true -> known_C09 Python [] acrs pd = None ->
+    forall fd : file_decls, py_file_decls uc cfg (Proofs.C09Recon.c09_reconciled pd) = Ok fd ->
+      good_C09 Python [] pd (c09_observe Python fd) = true.
+Proof. exact Proofs.C09_Python.c09_python_all. Qed.
+Print Assumptions C09_Python.
+
+Theorem C09_no_rename_Python :
+  forall (uc : unicode) (cfg : py_config) (pd : parsed),
+    dom_C09 Python [] pd = true ->
+    (forall e, In e (c09_entities pd) -> c09_renamed_away (c9e_id e) = false) ->
+    forall fd : file_decls, py_file_decls uc cfg (Proofs.C09Recon.c09_reconciled pd) = Ok fd ->
+      good_C09 Python [] pd (c09_observe Python fd) = true.
+Proof. exact Proofs.C09Final.c09_no_rename_python. Qed.
+Print Assumptions C09_no_rename_Python.
+
+(* Swift, every program, every prefix, type-mapping, decorator and generic-constraint configuration: outside the
+   recorded classes every name spelled in a type position (stored-property types, case payloads, typealias
+   targets, the ...Inner helper struct of a struct variant and its type arguments, generic arguments) is a
+   generic parameter of the item it stands in (verbatim, unprefixed) or exactly the name a generated
+   definition is declared under (after serde(rename), after the prefix) *)
+Theorem C09_Swift :
+  forall (uc : unicode) (cfg : sw_config) (acrs : list str) (pd : parsed),
+    dom_C09 Swift (sw_prefix cfg) pd = true -> known_C09 Swift (sw_prefix cfg) acrs pd = None ->
+    forall fd : file_decls, sw_file_decls uc cfg (Proofs.C09Recon.c09_reconciled pd) = Ok fd ->
+      good_C09 Swift (sw_prefix cfg) pd (c09_observe Swift fd) = true.
+Proof. exact Proofs.C09_Swift.c09_swift_all. Qed.
+Print Assumptions C09_Swift.
+
+Theorem C09_no_rename_Swift :
+  forall (uc : unicode) (cfg : sw_config) (pd : parsed),
+    dom_C09 Swift (sw_prefix cfg) pd = true ->
+    (forall e, In e (c09_entities pd) -> c09_renamed_away (c9e_id e) = false) ->
+    forall fd : file_decls, sw_file_decls uc cfg (Proofs.C09Recon.c09_reconciled pd) = Ok fd ->
+      good_C09 Swift (sw_prefix cfg) pd (c09_observe Swift fd) = true.
+Proof. exact Proofs.C09Final.c09_no_rename_swift. Qed.
+Print Assumptions C09_no_rename_Swift.
+
+(* Go, every program, package and type-mapping configuration WITH AN EMPTY uppercase_acronyms LIST: outside
+   the recorded classes every name spelled in a type position (field types, variant content types, alias
+   targets, const types, the ...Inner helper struct, generic arguments) is a generic parameter of the item
+   it stands in or exactly the name a generated definition is declared under.
+   PARTIAL: with a non-empty acronym list acronyms_to_uppercase rewrites definition names and member /
+   payload types on the printed text (go.rs:579, byte/char arithmetic) but not alias targets and const
+   types; that configuration is judged by the correspondence check on every run (class
+   C09-go-acronym-target), not by a theorem. *)
+Theorem C09_Go_partial :
+  forall (uc : unicode) (cfg : go_config) (pd : parsed),
+    go_uppercase_acronyms cfg = [] ->
+    dom_C09 Go [] pd = true -> known_C09 Go [] (go_uppercase_acronyms cfg) pd = None ->
+    forall fd : file_decls, go_file_decls uc cfg (Proofs.C09Recon.c09_reconciled pd) = Ok fd ->
+      good_C09 Go [] pd (c09_observe Go fd) = true.
+Proof. exact Proofs.C09_Go.c09_go_no_acronyms. Qed.
+Print Assumptions C09_Go_partial.
+
+Theorem C09_no_rename_Go_partial :
+  forall (uc : unicode) (cfg : go_config) (pd : parsed),
+    go_uppercase_acronyms cfg = [] ->
+    dom_C09 Go [] pd = true ->
+    (forall e, In e (c09_entities pd) -> c09_renamed_away (c9e_id e) = false) ->
+    forall fd : file_decls, go_file_decls uc cfg (Proofs.C09Recon.c09_reconciled pd) = Ok fd ->
+      good_C09 Go [] pd (c09_observe Go fd) = true.
+Proof. exact Proofs.C09Final.c09_no_rename_go_no_acronyms. Qed.
+Print Assumptions C09_no_rename_Go_partial.
 
 (* nothing renamed => no recorded class applies, all languages (with an empty Go acronym list) *)
 Theorem C09_no_rename_no_class :
@@ -148,6 +266,15 @@ Theorem C09_go_acronym_target_refuted :
 Proof. exact Proofs.C09Witness.c09_go_acronym_target_refuted. Qed.
 Print Assumptions C09_go_acronym_target_refuted.
 
+(* Go's acronym conversion is not idempotent and the ...Inner helper gets a different number of passes at
+   its definition and at its use: definition EXYZWQrInner, reference EXYZWQRInner *)
+Theorem C09_go_acronym_inner_refuted :
+  Proofs.C09Witness.c09_witness Go [] Proofs.C09Witness.w_acrs Proofs.C09Witness.w_prog_acr
+    (go_file_decls uc_exec (Proofs.C09Witness.w_go Proofs.C09Witness.w_acrs) (Proofs.C09Recon.c09_reconciled Proofs.C09Witness.w_prog_acr))
+    "C09-go-acronym-inner" = true.
+Proof. exact Proofs.C09Witness.c09_go_acronym_inner_refuted. Qed.
+Print Assumptions C09_go_acronym_inner_refuted.
+
 (* the hypotheses of C09_Kotlin are satisfiable on a non-trivial program (mutual references, generic
    struct, tagged enum with a struct variant, alias, one renamed struct, prefix KP) *)
 Theorem C09_Kotlin_nonvacuous :
@@ -157,3 +284,37 @@ Theorem C09_Kotlin_nonvacuous :
              good_C09 Kotlin (lit "KP") Proofs.C09Witness.w_clean (c09_observe Kotlin fd) = true.
 Proof. exact Proofs.C09Witness.C09_Kotlin_nonvacuous_ex. Qed.
 Print Assumptions C09_Kotlin_nonvacuous.
+
+(* the hypotheses of the five other theorems are satisfiable on the same non-trivial program: inside
+   dom_C09, in no recorded class, generated by the model with at least 8 references (Swift under the
+   prefix OP, Go with an empty acronym list), and the judgement holds *)
+Theorem C09_TypeScript_nonvacuous :
+  Proofs.C09Witness.c09_nonvacuous TypeScript [] Proofs.C09Witness.w_clean
+    (ts_file_decls uc_exec Proofs.C09Witness.w_ts (Proofs.C09Recon.c09_reconciled Proofs.C09Witness.w_clean)) = true.
+Proof. exact Proofs.C09Witness.C09_TypeScript_nonvacuous_ex. Qed.
+Print Assumptions C09_TypeScript_nonvacuous.
+
+Theorem C09_Scala_nonvacuous :
+  Proofs.C09Witness.c09_nonvacuous Scala [] Proofs.C09Witness.w_clean
+    (sc_file_decls uc_exec Proofs.C09Witness.w_sc (Proofs.C09Recon.c09_reconciled Proofs.C09Witness.w_clean)) = true.
+Proof. exact Proofs.C09Witness.C09_Scala_nonvacuous_ex. Qed.
+Print Assumptions C09_Scala_nonvacuous.
+
+Theorem C09_Python_nonvacuous :
+  Proofs.C09Witness.c09_nonvacuous Python [] Proofs.C09Witness.w_clean
+    (py_file_decls uc_exec Proofs.C09Witness.w_py (Proofs.C09Recon.c09_reconciled Proofs.C09Witness.w_clean)) = true.
+Proof. exact Proofs.C09Witness.C09_Python_nonvacuous_ex. Qed.
+Print Assumptions C09_Python_nonvacuous.
+
+Theorem C09_Swift_nonvacuous :
+  Proofs.C09Witness.c09_nonvacuous Swift (lit "OP") Proofs.C09Witness.w_clean
+    (sw_file_decls uc_exec Proofs.C09Witness.w_sw (Proofs.C09Recon.c09_reconciled Proofs.C09Witness.w_clean)) = true.
+Proof. exact Proofs.C09Witness.C09_Swift_nonvacuous_ex. Qed.
+Print Assumptions C09_Swift_nonvacuous.
+
+Theorem C09_Go_nonvacuous :
+  Proofs.C09Witness.c09_nonvacuous Go [] Proofs.C09Witness.w_clean
+    (go_file_decls uc_exec (Proofs.C09Witness.w_go []) (Proofs.C09Recon.c09_reconciled Proofs.C09Witness.w_clean)) = true.
+Proof. exact Proofs.C09Witness.C09_Go_nonvacuous_ex. Qed.
+Print Assumptions C09_Go_nonvacuous.
+
